@@ -24,8 +24,11 @@ COMMON_ASSUMPTIONS = [
 PLANS = {
     "C01": lambda tier: {
         "level": "exploration",
-        "stages": [main_stage(40, 240, tier)],
-        "require": ["morphemes_checked", "class_rewritten", "class_multi_morpheme", "class_split_token", "long_inputs_accepted", "nonempty_inputs_normalised_to_empty"],
+        "stages": [main_stage(40, 240, tier),
+                   # what the command-line tool prints line by line (surfaces reproduce every input line)
+                   dict(main_stage(60, 240, tier, name="cli", shards=8), needs=["py", "cli"], extra=["--prop-alias", "C19", "--scale", "2"],
+                        kinds_re="^cli_")],
+        "require": ["morphemes_checked", "class_rewritten", "class_multi_morpheme", "class_split_token", "long_inputs_accepted", "nonempty_inputs_normalised_to_empty", "cli.cli_runs_compared"],
         "rule": "seeded worlds (random matrix + lexicon with A/B compounds + 0-3 user dictionaries + random plugin stack "
                 "incl. NFKC/lower-casing, prolonged-sound-mark collapsing, yomigana deletion, MeCab/regex/simple OOV, "
                 "numeric/katakana joining) x texts built from dictionary keys, near misses, numerals, katakana runs, "
@@ -62,9 +65,12 @@ PLANS = {
     },
     "C08": lambda tier: {
         "level": "exploration",
-        "stages": [main_stage(30, 240, tier)],
+        "stages": [main_stage(30, 240, tier),
+                   # begin()/end()/len() as the Python binding reports them (code points)
+                   dict(main_stage(60, 240, tier, name="pyoffsets", shards=8), needs=["py", "cli"], extra=["--prop-alias", "C19", "--scale", "2"],
+                        kinds_re="^python_(code_point_slice|len)$")],
         "require": ["edit_batches", "histories_with_several_batches", "map_positions_checked", "built_positions_checked",
-                    "morpheme_offsets_checked", "tokenizations_rewritten_multibyte", "split_morpheme_offsets_checked", "expanding_inputs_near_the_limit_accepted"],
+                    "morpheme_offsets_checked", "tokenizations_rewritten_multibyte", "split_morpheme_offsets_checked", "expanding_inputs_near_the_limit_accepted", "deprecated_split_results_checked", "pyoffsets.py_morphemes"],
         "rule": "part A: seeded originals (1-12 chars mixing 1-4 byte characters) x histories of 1-4 edit batches on a real InputBuffer "
                 "through with_editor (sorted non-overlapping non-empty ranges on char boundaries at start/middle/end/adjacent, replaced by "
                 "empty/equal/shorter/longer strings through replace_ref/char/char_iter/own; histories emptying the text are cut); after "
@@ -120,11 +126,14 @@ PLANS = {
             main_stage(40, 300, tier, death_is_violation=True),
             main_stage(40, 300, tier, build="rel", name="rel", death_is_violation=True),
             main_stage(60, 120, tier, build="valgrind", name="valgrind", death_is_violation=True, shards=8),
+            # the command-line tool must not die on any input file / option combination
+            dict(main_stage(60, 240, tier, name="cli", shards=8), needs=["py", "cli"], extra=["--prop-alias", "C19", "--scale", "2"],
+                        kinds_re="^cli_failed$"),
         ] + ([] if tier == "quick" else [
             main_stage(60, 300, tier, build="asan", name="asan", death_is_violation=True),
             dict(main_stage(60, 900, tier, build="miri", name="miri", death_is_violation=False), shards=16),
         ]),
-        "require": ["morphemes_touched", "matrix_reads_seen_by_hook", "limit_worlds", "too_long_errors", "long_inputs_handled", "debug_mode_analyses",
+        "require": ["morphemes_touched", "matrix_reads_seen_by_hook", "limit_worlds", "too_long_errors", "long_inputs_handled", "debug_mode_analyses", "cli.cli_runs_compared", "configurations_without_oov_provider_refused",
                     "rel.morphemes_touched", "valgrind.morphemes_touched", "probe_scenarios"],
         "rule": "seeded worlds (full random plugin stacks, cost extremes, compounds whose last unit is longer than declared, user "
                 "dictionaries, aligned and odd-address loads) x hostile texts (NUL/controls, combining marks, ZWJ, variation selectors, emoji "
@@ -275,7 +284,7 @@ PLANS = {
         "stages": [main_stage(60, 300, tier),
                    # dictionary numbers, POS and references as the Python binding reports them (fields incl. the raw word info, lookup)
                    dict(main_stage(60, 240, tier, name="pyrefs", shards=8), needs=["py", "cli"], extra=["--prop-alias", "C19", "--scale", "2"],
-                        kinds_re="^python_(field|lookup)$")],
+                        kinds_re="^python_(field|lookup|build)$")],
         "require": ["rows_checked", "system_rows_compared_with_zero_layer_load", "morphemes_checked", "oov_morphemes_checked", "stacks_loaded_from_files", "morpheme_passes_with_a_field_subset", "pyrefs.py_word_infos_compared",
                     "fifteenth_dictionary_rejected_with_error", "plugin_registered_pos_2"],
         "rule": "seeded stacks of 0, 1, 2, 3-13, 14 and 15 user dictionaries over a generated system dictionary; each layer compiled the way the "
